@@ -66,7 +66,10 @@ def outcome(jp, env, q, doc, nondet, cap=400):
     # abandoned by an earlier JSONPathRecursionError must leave nothing behind
     c = _COMPILED.get((id(env), q))
     if c is None:
-        c = _COMPILED[(id(env), q)] = env.compile(q)
+        try:
+            c = _COMPILED[(id(env), q)] = env.compile(q)
+        except Exception as err:  # noqa: BLE001 - the battery's queries are valid: compiling one is not where a limit applies
+            return {("escaped", "compile: " + type(err).__name__)}
 
     def one():
         def go():
@@ -253,14 +256,19 @@ def run(chk: core.Check, tier: str, seed: int) -> None:
                         q = rng.choice(QUERIES + PREFIXED) if depth <= lim + 1 else rng.choice(PREFIXED)
                         rec = {"op": "depth", "q": core.enc_text(q), "spine": spine, "leaf": leaf, "limit": lim, "mode": mode,
                                "nesting": depth}
-                        if (shape + bottom + depth) % 3 == 0:
-                            if q not in compiled_early:
-                                env_re.max_recursion_depth = lim + 3            # whatever it was when compiling
-                                compiled_early[q] = env_re.compile(q)
-                            env_re.max_recursion_depth = lim
-                            c = compiled_early[q]
-                        else:
-                            c = env.compile(q)
+                        try:
+                            if (shape + bottom + depth) % 3 == 0:
+                                if q not in compiled_early:
+                                    env_re.max_recursion_depth = lim + 3            # whatever it was when compiling
+                                    compiled_early[q] = env_re.compile(q)
+                                env_re.max_recursion_depth = lim
+                                c = compiled_early[q]
+                            else:
+                                c = env.compile(q)
+                        except Exception as err:  # noqa: BLE001
+                            chk.violation({"clause": "a valid query was refused at compile time under a small recursion limit", "cls": type(err).__name__},
+                                          {"query": q, "limit": lim, "mode": mode, "error": str(err)[:200]})
+                            continue
                         try:
                             timed_out, nodes = impl.with_timeout(20.0 if _TIMEOUTS[0] < 8 else 2.0, c.find, doc)
                             _TIMEOUTS[0] += 1 if timed_out else 0
